@@ -505,6 +505,9 @@ class StmtMixin:
             elif name.startswith('used:'): t = z3.Bool('b')
             elif name.startswith('rec:'): t = None
             elif name == 'alloc': t = z3.Array('ALLOC', I, B)
+            elif name.startswith('fs_'):
+                from .models_basic import FS_DEFAULTS
+                t = FS_DEFAULTS.get(name)
         if t is None or not z3.is_expr(t): raise Undecided('cannot havoc ghost ' + name)
         p.ghost[name] = fresh(name.replace(':', '_') + tag, t.sort())
 
